@@ -87,8 +87,22 @@ def project_check(p, post, who):
     for k in mlrs:
         if len(lrs[k]) != len(mlrs[k]):
             return f"{who}: len(iter_lrs[{k}]) {len(lrs[k])} != {len(mlrs[k])}"
+        theta = post.get("theta") or []
+        aligned = len(theta) == len(mlrs[k])
         for i, tok in enumerate(mlrs[k]):
             want = lr_value(tok)
+            if want is not None and tok["sch"] == "none" and tok["lr"] != 0:
+                # an optimizer that HAD a scheduler keeps the last scheduled lr when the scheduler is dropped
+                # (torch leaves param_groups['lr'] as the scheduler set it): back to the start of this optimizer
+                # generation, the value is the base lr only if no scheduler token precedes it; otherwise it is
+                # unknown at the first scheduler-less iteration and constant afterwards
+                j = i
+                while j > 0 and aligned and theta[j]["gens"].get(k) == theta[j - 1]["gens"].get(k) \
+                        and mlrs[k][j - 1]["lr"] != 0:
+                    j -= 1
+                had = (not aligned) or any(mlrs[k][q]["sch"] != "none" for q in range(j, i))
+                if had:
+                    want = float(lrs[k][i - 1]) if (aligned and i > j and mlrs[k][i - 1]["sch"] == "none") else None
             if want is not None and abs(float(lrs[k][i]) - want) > 1e-9 + 1e-6 * abs(want):
                 return f"{who}: iter_lrs[{k}][{i}] = {float(lrs[k][i])} != {want} ({tok})"
     opts = p.optimizers
@@ -147,6 +161,11 @@ def replay_behaviour(arg):
                       obj_type=obj_type, seed=5 + idx % 3)
     sink = io.StringIO()
     tmp = tempfile.mkdtemp(prefix="c05_")
+    # clone() stages through tempfile.gettempdir()/ptycho_clone_<draw from the object's seeded rng>.zip: parallel
+    # workers replaying behaviours with the same seed would collide on that name (an artefact of running the
+    # harness in parallel, not part of the property), so every behaviour gets a private temporary directory
+    old_tmpdir = tempfile.tempdir
+    tempfile.tempdir = tmp
     try:
         with contextlib.redirect_stdout(sink):
             twin = tp.build(sim, perturb=0.05, rng=11)
@@ -193,6 +212,7 @@ def replay_behaviour(arg):
                                  f"{tag} interrupted process differs from the uninterrupted twin: {m}"))
                 return problems
     finally:
+        tempfile.tempdir = old_tmpdir
         shutil.rmtree(tmp, ignore_errors=True)
     return problems
 
@@ -215,8 +235,32 @@ def check(rep, tier, seed):
     hists = [h for h in g.cases if any(e["ev"] == "interrupt" for e in h)]
     total = len(hists)
     random.Random(seed).shuffle(hists)
-    # prefer variety: one behaviour per (first call kind, interruption kinds) first
-    hists = hists[: (40 if quick else 640)]
+    # stratified: every (interruption kind, optimizer types, scheduler types, epochs scheduled so far > 0) that is
+    # followed by a plain continuation is replayed at least once (quick) / three times before the rest of the budget is spent at random
+    def strata(h):
+        out = set()
+        for i, e in enumerate(h):
+            if e["ev"] != "interrupt":
+                continue
+            nxt = next((x for x in h[i + 1:] if x["ev"] == "call"), None)
+            cont = nxt is not None and not nxt["c"]["reset"] and not (isinstance(nxt["c"]["optp"], dict) and nxt["c"]["optp"])
+            if cont:
+                p = e["post"]
+                out.add((e["kind"], tuple(p["opt"][k]["type"] for k in KEYS), tuple(p["sched"][k]["type"] for k in KEYS),
+                         tuple(p["sched"][k]["e"] > 0 for k in KEYS)))
+        return out
+    need, first, rest = {}, [], []
+    for h in hists:
+        st = [x for x in strata(h) if need.get(x, 0) < (1 if quick else 3)]
+        if st:
+            for x in strata(h):
+                need[x] = need.get(x, 0) + 1
+            first.append(h)
+        else:
+            rest.append(h)
+    budget = 48 if quick else 1600
+    hists = (first + rest)[: max(budget, len(first))] if not quick else (first[:budget] + rest[: max(0, budget - len(first))])
+    rep.note("strata", {"distinct": len(need), "behaviours_chosen_for_strata": len(first)})
     rep.note("behaviours", {"enumerated_with_interruptions": total, "replayed": len(hists)})
     rep.sample({"behaviour": [{"ev": e["ev"], "kind": e["kind"], "call": e["c"]} for e in hists[0]]})
     res = pmap(replay_behaviour, [(h, i) for i, h in enumerate(hists)], procs=16, chunk=1)
